@@ -127,7 +127,7 @@ PROPS = {
     },
     "C11": {
         "level": "fault_enumeration",
-        "stages": [hist("crash", "crash::crash_c11", 40, 400, quick_ms=45000, thorough_ms=1500000)],
+        "stages": [hist("crash", "crash::crash_c11", 40, 2500, quick_ms=45000, thorough_ms=1500000)],
         "rule": "case = one kill point: a snapshot of the disk taken before a mutation (create, each write plus torn variants with 1, n/2, n-1 bytes of it, rename, permission change, each command output) of an interrupted build/clean, audited (cache names, content containment) and recovered from (build-all must succeed and equal the from-scratch model; then edit/build/revert/build probe). Within one interrupted invocation the enumeration of kill points is complete; scenarios (graph, prior history, interrupted operation, schedule) are sampled. Distinct by (scenario, mutation index, schedule, torn length); snapshots whose disk equals an earlier one of the same scenario are skipped; non-trivial when at least one mutation had completed",
         "floor": {"quick": 1000, "thorough": 20000},
         "assumptions": COMMON_ASSUME + ["a kill loses no completed system call (no power-loss reordering); a write in flight may be torn at byte granularity; commands replace each output atomically"],
@@ -174,7 +174,7 @@ PROPS = {
         "level": "exploration",
         "stages": [dict(hist("codec", "codec::codec_c16", 14, 200), crash_is_violation=True),
                    {"name": "layout", "kind": "python", "module": "offline_oracles", "oracle": "layout", "source_stage": "codec"},
-                   {"name": "miri", "kind": "miri", "test": "codec::codec_c16", "cases": {"quick": 0, "thorough": 2}, "tiers": ["thorough"], "shards": 8, "env": {"VERIF_MAX_FLIPS": "48", "VERIF_PREFIX_STEP": "5"}}],
+                   {"name": "miri", "kind": "miri", "test": "codec::codec_c16", "cases": {"quick": 0, "thorough": 2}, "tiers": ["thorough"], "shards": 8, "env": {"VERIF_MAX_FLIPS": "48", "VERIF_PREFIX_STEP": "5", "VERIF_NOHASH": "1"}}],
         "rule": "case = one (state-file instance, damage) pair: write/read round trip through ruler's own writer and reader on a fresh handle, every strict prefix, single bit flips (every position of small images), random byte strings; a panic or a process abort is a violation, an accepted prefix is a violation; exported images are decoded by an independent bincode reader; distinct by (image, damage)",
         "floor": {"quick": 10000, "thorough": 200000},
         "assumptions": ["instances: 0..50 entries, 1..8 targets; hashes are arbitrary 256-bit values made through the text form"],
